@@ -629,7 +629,7 @@ class GBNFCompiler:
                 pattern = "[^\\n]*"
 
             # Create field rule: field-name ::= "FIELD_NAME" "::" ws pattern
-            rules.append(f'{rule_name} ::= "{field_name}" "::" ws {pattern}')
+            rules.append(f'{rule_name} ::= "{self._escape_literal(field_name)}" "::" ws {pattern}')
 
         rules.append("")
 
